@@ -503,9 +503,14 @@ def check_variant(ctx, lin, exe, variant, cases, workdir, stats):
         v1 = run_lincheck(lin, spec, h1, workdir, "v%d_cls1" % variant)
         h2 = [without(h, lambda op, r, t: is_empty_extract(op, r, t) or is_pos_read(op, r, t)) for (_, _, h) in bad_main]
         v2 = run_lincheck(lin, spec, h2, workdir, "v%d_cls2" % variant)
-        for (v, c, h), a, b in zip(bad_main, v1, v2):
+        is_failed_erase = lambda op, r, t: t < 90 and op[0] == "erase" and r == ["false"]
+        h3 = [without(h, is_failed_erase) for (_, _, h) in bad_main]
+        v3 = run_lincheck(lin, spec, h3, workdir, "v%d_cls3e" % variant)
+        for (v, c, h), a, b, e3 in zip(bad_main, v1, v2, v3):
             sig, why = None, ""
-            if fam == "skip" and a == "OK":
+            if fam == "skip" and rcu and e3 == "OK" and a != "OK":
+                sig, why = "skiplist-rcu-remove-fails-before-competing-remove-lp", " [erase/extract(k) returned false although k was still present: it gave up on a competing remover's upper-level mark]"
+            elif fam == "skip" and a == "OK":
                 if rcu:
                     sig, why = "skiplist-rcu-extract_minmax-empty-on-contention", " [extract_min/extract_max returned empty while the set was never empty]"
                 else:
